@@ -17,6 +17,9 @@ def jobs(tier):
                 js.append(Job(name=f"bitfield-{'write' if wr else 'read'}-{sz}-{'u' if uns else 's'}", src="bitfield.c", group="C04.1/.2 bit-fields",
                               defs={"SZ": str(sz), "UNS": str(uns), "WRITE": str(wr)},
                               sample=f"bit-field {'assignment' if wr else 'read'}: {sz}-byte {'unsigned' if uns else 'signed'} storage unit, every offset/width/address/memory", **CG))
+    for wr in (0, 1):
+        js.append(Job(name=f"bitfield-{'write' if wr else 'read'}-bool", src="bitfield.c", group="C04.1/.2 bit-fields", defs={"SZ": "1", "UNS": "1", "WRITE": str(wr), "BOOLUNIT": "1"},
+                      sample=f"_Bool bit-field {'assignment' if wr else 'read'}: every offset/address/memory", **CG))
     PL = dict(units=["type.c"], mode="plain", cut=["error", "error_tok", "error_at", "warn_tok"], no_checks=["signed-overflow", "undefined-shift"], timeout=600, replay=None)
     for sz in (1, 2, 3, 4, 6, 7, 8, 12, 17):
         js.append(Job(name=f"aggcopy-{sz}", src="aggcopy.c", group="C04.3 aggregate copy", defs={"SZ": str(sz), "MEMZERO": "0"}, sample=f"store() of a {sz}-byte struct, arbitrary addresses and memory", **PL))
